@@ -281,7 +281,7 @@ impl PlainSecretParams {
         public_params: &PublicParams,
     ) -> Result<Self> {
         let params = Self::try_from_reader_inner(&mut i, alg, public_params)?;
-        if version == KeyVersion::V3 || version == KeyVersion::V4 {
+        if matches!(version, KeyVersion::V2 | KeyVersion::V3 | KeyVersion::V4) {
             let checksum = i.read_arr::<2>()?;
             params.compare_checksum_simple(&checksum)?;
             ensure!(
@@ -705,9 +705,10 @@ impl PlainSecretParams {
             self.to_writer_raw(&mut tee)?;
         }
 
-        if version == KeyVersion::V3 || version == KeyVersion::V4 {
+        if matches!(version, KeyVersion::V2 | KeyVersion::V3 | KeyVersion::V4) {
             // Only for a version 3 or 4 packet where the string-to-key usage octet is zero, a
             // two-octet checksum of the algorithm-specific portion (sum of all octets, mod 65536).
+            // (Version 2 packets have the version 3 format.)
             //
             // https://www.rfc-editor.org/rfc/rfc9580.html#section-5.5.3-3.6.1
             hasher.to_writer(writer)?;
@@ -718,7 +719,7 @@ impl PlainSecretParams {
 
     pub fn write_len(&self, version: KeyVersion) -> usize {
         let mut sum = self.write_len_raw();
-        if version == KeyVersion::V3 || version == KeyVersion::V4 {
+        if matches!(version, KeyVersion::V2 | KeyVersion::V3 | KeyVersion::V4) {
             // checksum
             sum += 2;
         }
